@@ -157,8 +157,10 @@ class Capacities(JSONField):
                 assert v >= 0
                 assert isinstance(v, int)
             try:
-                # will toss an exception if field is not defined
-                self.__getattribute__(k)
+                # will toss an exception if field is not defined (fields are the instance attributes,
+                # not whatever else the class happens to have under that name)
+                if k not in self.__dict__:
+                    raise AttributeError(k)
                 self.__setattr__(k, v)
             except AttributeError:
                 report = f"Unable to set field {k} of capacity, no such field available "\
@@ -309,8 +311,10 @@ class CapacityHints(JSONField):
             assert v is not None  # could be strings
             assert isinstance(v, str)
             try:
-                # will toss an exception if field is not defined
-                self.__getattribute__(k)
+                # will toss an exception if field is not defined (fields are the instance attributes,
+                # not whatever else the class happens to have under that name)
+                if k not in self.__dict__:
+                    raise AttributeError(k)
                 self.__setattr__(k, v)
             except AttributeError:
                 report = f"Unable to set field {k} of capacity hints, no such field available"
@@ -421,8 +425,10 @@ class Labels(JSONField):
             assert v is not None  # could be strings or lists of strings
             assert isinstance(v, str) or isinstance(v, list)
             try:
-                # will toss an exception if field is not defined
-                self.__getattribute__(k)
+                # will toss an exception if field is not defined (fields are the instance attributes,
+                # not whatever else the class happens to have under that name)
+                if k not in self.__dict__:
+                    raise AttributeError(k)
                 if self.VALIDATORS.get(k, None) is not None:
                     if isinstance(v, list):
                         for i in v:
@@ -514,8 +520,10 @@ class ReservationInfo(JSONField):
             assert v is not None  # could be strings or lists of strings
             assert isinstance(v, str) or isinstance(v, list)
             try:
-                # will toss an exception if field is not defined
-                self.__getattribute__(k)
+                # will toss an exception if field is not defined (fields are the instance attributes,
+                # not whatever else the class happens to have under that name)
+                if k not in self.__dict__:
+                    raise AttributeError(k)
                 self.__setattr__(k, v)
             except AttributeError:
                 report = f"Unable to set field {k} of reservation info, no such field "\
@@ -550,8 +558,10 @@ class StructuralInfo(JSONField):
             assert v is not None  # could be strings or lists of strings
             assert isinstance(v, str) or isinstance(v, list)
             try:
-                # will toss an exception if field is not defined
-                self.__getattribute__(k)
+                # will toss an exception if field is not defined (fields are the instance attributes,
+                # not whatever else the class happens to have under that name)
+                if k not in self.__dict__:
+                    raise AttributeError(k)
                 self.__setattr__(k, v)
             except AttributeError:
                 report = f"Unable to set field {k} of structural info, no such field available"
@@ -583,8 +593,10 @@ class Location(JSONField):
             assert v is not None
             assert isinstance(v, str) or isinstance(v, float)
             try:
-                # will throw exception if field is not defined
-                self.__getattribute__(k)
+                # will throw exception if field is not defined (fields are the instance attributes,
+                # not whatever else the class happens to have under that name)
+                if k not in self.__dict__:
+                    raise AttributeError(k)
                 self.__setattr__(k, v)
             except AttributeError:
                 report = f"Unable to set field {k} of location, no such field available"
@@ -639,8 +651,10 @@ class Flags(JSONField):
             assert v is not None
             assert isinstance(v, bool)
             try:
-                # will throw exception if field is not defined
-                self.__getattribute__(k)
+                # will throw exception if field is not defined (fields are the instance attributes,
+                # not whatever else the class happens to have under that name)
+                if k not in self.__dict__:
+                    raise AttributeError(k)
                 self.__setattr__(k, v)
             except AttributeError:
                 report = f"Unable to set field {k} of flags, no such field available"
